@@ -183,9 +183,14 @@ def bounded_unknown_names(tier, seed):
             for _ in range(20 if tier == "quick" else 1000):
                 pairs = [(a, c) for a in mods for c in mods if a != c and "." in a and "." in c]
                 imports = rng.sample(pairs, rng.randint(0, 4))
+                ghosts = []
+                if rng.random() < 0.5:
+                    # an import whose importee is no module of the architecture (e.g. it lies in an excluded package): neither it nor its ancestors become modules
+                    imports = imports + [(rng.choice([m for m in mods if "." in m]), "r.gone.deep.m")]
+                    ghosts = ["r.gone", "r.gone.deep", "r.gone.deep.m"]
                 arch = build_arch(mods, imports, level_limit=limit)
                 present = set(arch.modules)
-                absent = [n for n in ("r.zz", "r.a.zz", "r.a.x.zz", "r.ax", "q", "r.a.", "r.a.x" if limit else "r.b.zz") if n not in present]
+                absent = [n for n in ["r.zz", "r.a.zz", "r.a.x.zz", "r.ax", "q", "r.a.", "r.a.x" if limit else "r.b.zz"] if n not in present] + ghosts   # (the ghosts are absent by construction, whatever the graph says)
                 good = rng.choice(sorted(m for m in present if "." in m))
                 for bad in absent:
                     for kindf in ("name", "sub"):
